@@ -163,3 +163,16 @@ func anyCompany(us []User) bool {
 	}
 	return false
 }
+
+// FindInBatches: found = batches that returned rows (the callback ran cb on its handle after each);
+// trailingEmpty = the loop ended on a batch that found nothing (no LIMIT ended it before)
+func fibDesc(limit bool, found int, trailingEmpty bool, cb []string) string {
+	batches := []string{}
+	for i := 0; i < found; i++ {
+		batches = append(batches, dOp("(TBatch true)", cb, nil))
+	}
+	if trailingEmpty || found == 0 {
+		batches = append(batches, dOp("(TBatch false)", nil, nil))
+	}
+	return dOp(lib.App("TFindInBatches", lib.Bool(limit)), batches[:1], batches[1:])
+}
